@@ -1,4 +1,4 @@
-import UgoVerif.Proofs.ShiftOps
+import UgoVerif.Proofs.ShiftCall
 /-
   C14, the RETURN of the callee under the offset relation: the child's loop returns (frame 0 is the
   only frame), the parent goes back to the caller's frame; the value the child's `Run` reads at
@@ -6,6 +6,7 @@ import UgoVerif.Proofs.ShiftOps
 -/
 set_option linter.unusedSimpArgs false
 set_option linter.unusedVariables false
+set_option maxHeartbeats 1600000
 namespace UgoVerif.Proofs.Shift
 open UgoVerif UgoVerif.Go UgoVerif.VM
 
@@ -122,15 +123,15 @@ structure Rt (k : Nat) (rc rp : Nat) (s t : State) : Prop where
   errT : t.err = none
   res : s.stack[rc]! = t.stack[rp]!
 
-variable {bp k N L : Nat} {a : Int}
+variable {bp k d H N : Nat} {a : Int}
 
 /-- both write the result `v`: the child into its slot `i`, the parent into its slot `j` -/
 theorem sh_rt_stackSet (i j : Int) (v : V) :
-    RelS (Sh bp k N a) (PQ (fun _ _ => True) (Rt k i.toNat j.toNat)) (stackSet i v) (stackSet j v) := by
+    RelS (Sh bp k 0 H N a) (PQ (fun _ _ => True) (Rt k i.toNat j.toNat)) (stackSet i v) (stackSet j v) := by
   intro s t h x s' y t' h1 h2
   obtain ⟨_, hi, rfl⟩ := stackSet_inv _ _ _ _ _ h1
   obtain ⟨_, hj, rfl⟩ := stackSet_inv _ _ _ _ _ h2
-  refine ⟨trivial, ⟨h.heap, h.globals, h.modules, h.fiS, h.fiT, h.errS, h.errT, ?_⟩⟩
+  refine ⟨trivial, ⟨h.heap, h.globals, h.modules, by have := h.fiS; show s.frameIndex = 1; omega, by have := h.fiT; show t.frameIndex = (k : Int) + 1; omega, h.errS, h.errT, ?_⟩⟩
   show (s.stack.set! i.toNat v)[i.toNat]! = (t.stack.set! j.toNat v)[j.toNat]!
   rw [getElem!_set!, getElem!_set!, h.shapeS.stack, h.shapeT.stack]
   have c1 : i.toNat = i.toNat ∧ i.toNat < stackSize := ⟨rfl, by omega⟩
@@ -229,18 +230,31 @@ theorem rel_retRest (hk : 1 ≤ k) (hbp : 1 ≤ bp) (c hi hi' : Int) (hc : 1 ≤
   · rw [q7]
   · rw [q6, q7]; exact h.res
 
-/-- **RETURN.**  From `Sh`-related states (`bp ≥ 1`: the callee value lies below the frame; `k ≥ 1`: the
-    parent has a caller frame) -/
+theorem sh_curFrame0 :
+    RelS (Sh bp k 0 H N a) (PQ (fun f g => FrameSh bp H f g ∧ f.bp = 0) (Sh bp k 0 H N a)) curFrame curFrame :=
+  (sh_curFrame_P (fun f => f.bp = 0)).conseq (fun s t h => ⟨h, h.bp0⟩) (fun _ _ _ _ h => h)
+
+theorem sh_curFrame_pos :
+    RelS (Sh bp k (d + 1) H N a) (PQ (fun f g => FrameSh bp H f g ∧ 1 ≤ f.bp) (Sh bp k (d + 1) H N a)) curFrame curFrame :=
+  (sh_curFrame_P (fun f => 1 ≤ f.bp)).conseq (fun s t h => ⟨h, h.bpPos (d + 1) (by omega) (Nat.le_refl _)⟩) (fun _ _ _ _ h => h)
+
+/-- **RETURN of the invoked function itself.**  From `Sh`-related states at depth 0 (`bp ≥ 1`: the callee value
+    lies below the frame; `k ≥ 1`: the parent has a caller frame) -/
 theorem sh_execReturn (ha : a ≤ N) (hk : 1 ≤ k) (hbp : 1 ≤ bp) :
-    RelS (Sh bp k N a) (RetQ bp k) execReturn execReturn := by
+    RelS (Sh bp k 0 H N a) (RetQ bp k) execReturn execReturn := by
   unfold execReturn
   sh1
-  sh1
+  refine RelS.bindV sh_curFrame0 ?_
+  rintro ⟨fn1, fr1, ip1, bp1, hs1, d1⟩ ⟨fn2, fr2, ip2, bp2, hs2, d2⟩ ⟨⟨e1, e2, e3, e4, e5, e6⟩, e7⟩
+  simp only at e1 e2 e3 e4 e5 e6 e7
+  subst e7
+  subst e1 e2 e3 e5
+  dsimp only
   have e1 : ((0 : Int) == 0) = true := rfl
-  have e2 : ¬ (((bp : Int) == 0) = true) := by simp; omega
+  have e2 : ¬ (((0 : Int) + (bp : Int) == 0) = true) := by simp; omega
   rw [if_pos e1, if_neg e2]
-  rename_i numRet fn fr ip1 d ip2
-  cases fn with
+  rename_i numRet
+  cases fn1 with
   | none => exact RelS.errL_bind _ _
   | some fa =>
     dsimp only
@@ -252,48 +266,128 @@ theorem sh_execReturn (ha : a ≤ N) (hk : 1 ≤ k) (hbp : 1 ≤ bp) :
       refine RelS.bindV (sh_rt_stackSet _ _ _) ?_
       intro _ _ _
       have := rel_retRest (k := k) hk hbp ((cf.1.numLocals : Int) + 1) (a - 1) (a + bp - 1) (by omega)
+      have eq : (0 : Int) + (bp : Int) = (bp : Int) := by omega
+      rw [eq]
       exact this
     · refine RelS.bindV (sh_rt_stackSet _ _ _) ?_
       intro _ _ _
       have := rel_retRest (k := k) hk hbp ((cf.1.numLocals : Int) + 1) (a - 1) (a + bp - 1) (by omega)
+      have eq : (0 : Int) + (bp : Int) = (bp : Int) := by omega
+      rw [eq]
       exact this
 
-/-- RETURN at the level of `step`: the fetched opcode is RETURN -/
-theorem return_shift (F : FloatOps) (hk : 1 ≤ k) (hbp : 1 ≤ bp) :
-    RelS (fun s t => ShB bp k L s t ∧ ∀ op s1, exec fetchOp s = (.ok op, s1) → op = OpReturn) (RetQ bp k) (step F) (step F) := by
-  intro s t ⟨⟨N, a, h, ha, hL⟩, hok⟩ r s' r' t' h1 h2
-  rw [step_eq, exec_bind] at h1 h2
-  rcases e1 : exec fetchOp s with ⟨r1, s1⟩
-  rcases e2 : exec fetchOp t with ⟨r2, t1⟩
-  rw [e1] at h1
-  rw [e2] at h2
-  cases r1 with
-  | error e => simp at h1
-  | ok op =>
-    cases r2 with
-    | error e => simp at h2
-    | ok op' =>
-      simp only at h1 h2
-      obtain ⟨hop, hs1⟩ := sh_fetchOp s t h op s1 op' t1 e1 e2
-      subst hop
-      have hop := hok op s1 e1
-      subst hop
-      rw [exec_bind] at h1 h2
-      rcases e3 : exec (noteTrace OpReturn) s1 with ⟨r3, s2⟩
-      rcases e4 : exec (noteTrace OpReturn) t1 with ⟨r4, t2⟩
-      rw [e3] at h1
-      rw [e4] at h2
-      cases r3 with
-      | error e => simp at h1
-      | ok u =>
-        cases r4 with
-        | error e => simp at h2
-        | ok u' =>
-          simp only at h1 h2
-          have hs2 := (sh_noteTrace OpReturn s1 t1 hs1 u s2 u' t2 e3 e4).2
-          have hd : dispatch F OpReturn = execReturn := rfl
-          rw [hd] at h1 h2
-          exact sh_execReturn ha hk hbp s2 t2 hs2 r s' r' t' h1 h2
+/-! ### RETURN of a nested call -/
+
+theorem Sh.leave {s t : State} (h : Sh bp k (d + 1) H N a s t) (F : Frame → Frame) :
+    Sh bp k d H N a
+      { s with frames := s.frames.modify s.curFrame F, frameIndex := s.frameIndex - 1, curFrame := (s.frameIndex - 2).toNat,
+               ip := ((s.frames.modify s.curFrame F)[(s.frameIndex - 2).toNat]!).ip }
+      { t with frames := t.frames.modify t.curFrame F, frameIndex := t.frameIndex - 1, curFrame := (t.frameIndex - 2).toNat,
+               ip := ((t.frames.modify t.curFrame F)[(t.frameIndex - 2).toNat]!).ip } := by
+  have hsS := h.shapeS.frames
+  have hsT := h.shapeT.frames
+  have hfs := h.fiS
+  have hft := h.fiT
+  have hk := h.kLt
+  have e1 : (s.frameIndex - 2).toNat = d := by omega
+  have e2 : (t.frameIndex - 2).toNat = k + d := by omega
+  have gS : ∀ j, j ≤ d → (s.frames.modify s.curFrame F)[j]! = s.frames[j]! := by
+    intro j hj
+    rw [getElem!_modify, h.curS]
+    have c : ¬ (d + 1 = j ∧ j < s.frames.size) := fun c => by omega
+    rw [if_neg c]
+  have gT : ∀ j, j ≤ d → (t.frames.modify t.curFrame F)[k + j]! = t.frames[k + j]! := by
+    intro j hj
+    rw [getElem!_modify, h.curT]
+    have c : ¬ (k + (d + 1) = k + j ∧ k + j < t.frames.size) := fun c => by omega
+    rw [if_neg c]
+  refine { h with ip := ?_, curS := e1, curT := e2, fiS := by show s.frameIndex - 1 = _; omega,
+                  fiT := by show t.frameIndex - 1 = _; omega,
+                  shapeS := ⟨h.shapeS.stack, by simp [hsS]⟩, shapeT := ⟨h.shapeT.stack, by simp [hsT]⟩,
+                  kLt := by omega, frames := ?_, ips := ?_, bp0 := ?_, bpPos := ?_ }
+  · show ((s.frames.modify s.curFrame F)[(s.frameIndex - 2).toNat]!).ip = ((t.frames.modify t.curFrame F)[(t.frameIndex - 2).toNat]!).ip
+    rw [e1, e2, gS d (Nat.le_refl _), gT d (Nat.le_refl _)]
+    exact h.ips d (by omega)
+  · intro j hj
+    show FrameSh bp H ((s.frames.modify s.curFrame F)[j]!) ((t.frames.modify t.curFrame F)[k + j]!)
+    rw [gS j hj, gT j hj]
+    exact h.frames j (by omega)
+  · intro j hj
+    show ((s.frames.modify s.curFrame F)[j]!).ip = ((t.frames.modify t.curFrame F)[k + j]!).ip
+    rw [gS j (by omega), gT j (by omega)]
+    exact h.ips j (by omega)
+  · show ((s.frames.modify s.curFrame F)[0]!).bp = 0
+    rw [gS 0 (by omega)]
+    exact h.bp0
+  · intro j h1 hj
+    show 1 ≤ ((s.frames.modify s.curFrame F)[j]!).bp
+    rw [gS j hj]
+    exact h.bpPos j h1 (by omega)
+
+/-- back to the frame below, on both sides -/
+theorem sh_retUp (fi fi' : Int) (h1 : fi = (d : Int) + 2) (h2 : fi' = (k : Int) + (d : Int) + 2) (ha : a ≤ N) (hH : H ≤ N) :
+    RelS (Sh bp k (d + 1) H N a) (PostC bp k) (retUp fi) (retUp fi') := by
+  subst h1; subst h2
+  intro s t h r s' r' t' e1 e2
+  have hfs := h.fiS
+  have hft := h.fiT
+  have hk := h.kLt
+  unfold retUp clearCurrentFrame at e1 e2
+  have ec : ∀ (F : Frame → Frame) (u : State), exec (setCurFrame F) u = (.ok (), { u with frames := u.frames.modify u.curFrame F }) :=
+    fun _ _ => rfl
+  have ecf : ∀ u : State, exec curFrame u = (.ok (u.frames[u.curFrame]!), u) := fun _ => rfl
+  have ei : ∀ (v : Int) (u : State), exec (setIp v) u = (.ok (), { u with ip := v }) := fun _ _ => rfl
+  have c1 : (decide ((d : Int) + 2 - 2 < 0) || decide ((d : Int) + 2 - 2 ≥ (frameSize : Int))) = false := by
+    simp only [frameSize] at hk ⊢; simp; omega
+  have c2 : (decide ((k : Int) + (d : Int) + 2 - 2 < 0) || decide ((k : Int) + (d : Int) + 2 - 2 ≥ (frameSize : Int))) = false := by
+    simp only [frameSize] at hk ⊢; simp; omega
+  simp only [exec_bind, ec, c1, c2, Bool.false_eq_true, if_false, exec_modS, ecf, ei] at e1 e2
+  have hl := h.leave (fun f => { f with free := none, fn := none, handlers := none })
+  have p1 : ((d : Int) + 2 - 2).toNat = (s.frameIndex - 2).toNat := by omega
+  have p2 : ((k : Int) + (d : Int) + 2 - 2).toNat = (t.frameIndex - 2).toNat := by omega
+  rw [p1] at e1
+  rw [p2] at e2
+  split at e1
+  · simp at e1
+  · split at e2
+    · simp at e2
+    · simp only [exec_pure, Prod.mk.injEq, Except.ok.injEq] at e1 e2
+      obtain ⟨rfl, rfl⟩ := e1
+      obtain ⟨rfl, rfl⟩ := e2
+      exact Or.inl ⟨rfl, rfl, d, H, N, a, hl, ha, hH⟩
+
+/-- **RETURN of a nested call** (the current frame lies above the invoked function's frame): both sides go back
+    to the frame below -/
+theorem sh_execReturnUp (ha : a ≤ N) (hH : H ≤ N) :
+    RelS (Sh bp k (d + 1) H N a) (PostC bp k) execReturn execReturn := by
+  unfold execReturn
+  sh1
+  refine RelS.bindV sh_curFrame_pos ?_
+  rintro ⟨fn1, fr1, ip1, bp1, hs1, d1⟩ ⟨fn2, fr2, ip2, bp2, hs2, d2⟩ ⟨⟨e1, e2, e3, e4, e5, e6⟩, e7⟩
+  simp only at e1 e2 e3 e4 e5 e6 e7
+  subst e1 e2 e3 e5
+  dsimp only
+  have c1 : ¬ ((bp1 == 0) = true) := by simp; omega
+  have c2 : ¬ ((bp1 + (bp : Int) == 0) = true) := by simp; omega
+  rw [if_neg c1, if_neg c2]
+  sh1
+  have rest : ∀ N1, N ≤ N1 → RelS (Sh bp k (d + 1) H N1 a) (PostC bp k) (retRest (a - 1) bp1) (retRest (a + bp - 1) (bp1 + bp)) := by
+    intro N1 hN1
+    unfold retRest
+    sh1; sh1
+    refine RelS.bindV sh_getS ?_
+    intro x y hxy
+    have f1 := hxy.fiS
+    have f2 := hxy.fiT
+    have c3 : ¬ ((x.frameIndex == 1) = true) := by simp; omega
+    have c4 : ¬ ((y.frameIndex == 1) = true) := by simp; omega
+    rw [if_neg c3, if_neg c4]
+    exact sh_retUp _ _ (by omega) (by omega) (by omega) (by omega)
+  apply RelS.ite
+  · sh1; sh1
+    exact rest _ (by omega)
+  · sh1
+    exact rest _ (by omega)
 
 /-- the epilogue of the child's `Run`: `resultValue` reads `stack[sp-1]` and DEREFERENCES an
     `*ObjectPtr`; the in-script caller finds the raw slot value -/
